@@ -14,7 +14,7 @@ import subprocess
 import sys
 
 sys.path.insert(0, os.path.dirname(os.path.abspath(__file__)))
-from runall import run_all  # noqa: E402
+from runall import Scratch, run_all  # noqa: E402
 
 REPO = "/repo"
 
@@ -25,24 +25,17 @@ def sh(cmd, cwd=None):
 
 
 def with_patch(patch):
-    rc, o = sh(f"git apply --check {patch}", cwd=REPO)
-    if rc != 0:
-        return None
-    sh(f"git apply {patch}", cwd=REPO)
-    try:
-        return run_all()
-    finally:
-        sh("git checkout -- . && git reset -q && git clean -fdq liquid", cwd=REPO)
+    """checks that fire on a scratch worktree of /repo HEAD with ``patch`` applied (None: does not apply)."""
+    with Scratch(patch) as sc:
+        if not sc.applied:
+            return None
+        return run_all(root=sc.dir)
 
 
 def main():
     args = [a for a in sys.argv[1:] if not a.startswith("--")]
     do_seeds = "--benign" not in sys.argv or "--seeds" in sys.argv
     do_benign = "--seeds" not in sys.argv or "--benign" in sys.argv
-    rc, o = sh("git status --porcelain", cwd=REPO)
-    if o.strip():
-        print("/repo is not clean")
-        return 2
     base = run_all()
     if base:
         print("unchanged tree is not silent:", sorted(base))
